@@ -35,16 +35,50 @@ class Srv:
 
 
 class Sock:
-    def __init__(self, ip):
-        self.ip = ip
+    """what wrappers.Request sees of the connection: getpeername() as the real socket families give it"""
+
+    def __init__(self, peer):
+        self.peer = peer
 
     def getpeername(self):
-        return (self.ip, 5555)
+        if isinstance(self.peer, Exception):
+            raise self.peer
+        return self.peer
+
+
+def peer_spec(x):
+    """case field -> peer spec; a plain str is an IPv4 address (older cases)"""
+    return {'t': 'inet', 'h': x} if isinstance(x, str) else x
+
+
+def peer_value(spec):
+    """the python object getpeername() returns for the spec"""
+    t = spec['t']
+    if t == 'inet':            # AF_INET: (host, port)
+        return (spec['h'], 5555)
+    if t == 'inet6':           # AF_INET6: (host, port, flowinfo, scope_id)
+        return (spec['h'], 5555, 0, 0)
+    if t == 'unix':            # AF_UNIX: the peer's path, '' for an unnamed socket
+        return spec['n']
+    if t == 'unixb':           # AF_UNIX abstract namespace: bytes
+        return spec['n'].encode('latin-1')
+    return OSError(107, 'Transport endpoint is not connected')      # 'raise'
+
+
+def peer_addr(spec):
+    """the peer's network address, read independently of wrappers.Request: a UNIX-socket peer has none"""
+    return spec['h'] if spec['t'] in ('inet', 'inet6') else None
+
+
+def rec_ip(ip):
+    """request.remote.ip as recorded from the real Request: None | str (anything else by its text)"""
+    return ip if ip is None or isinstance(ip, str) else str(ip)
 
 
 def mkreq(ip='10.0.0.1', method='GET', path='/', headers=()):
+    """a REAL wrappers.Request over a fake socket; `ip`: IPv4 address or peer spec"""
     h = Headers([(k, v) for k, v in headers if v is not None])
-    req = Request(Sock(ip), method, path=path, headers=h, server=Srv())
+    req = Request(Sock(peer_value(peer_spec(ip))), method, path=path, headers=h, server=Srv())
     return req, Response(req)
 
 
@@ -658,6 +692,7 @@ def cookie_header(spec, served):
 def gen_sess_case(rng):
     n = rng.randint(2, 6)
     reqs = []
+    six = rng.choice([None, None, None, {'t': 'inet6', 'h': '2001:db8::2'}, {'t': 'unix', 'n': ''}])
     for i in range(n):
         ip, agent = rng.choice(IPS[:3]), rng.choice(AGENTS[:4])
         uid = '%08x' % (rng.getrandbits(24) * 256 + i)
@@ -689,7 +724,10 @@ def gen_sess_case(rng):
                 reqs[j]['uuid'], fp(reqs[j]['ip'], reqs[j]['agent']))])}
         a = rng.random()
         act = ['w', rng.randint(1, 9)] if a < 0.5 else (['x'] if a < 0.6 else ['r'])
-        reqs.append({'cookie': cookie, 'ip': ip, 'agent': agent, 'act': act, 'uuid': uid})
+        rq = {'cookie': cookie, 'ip': ip, 'agent': agent, 'act': act, 'uuid': uid}
+        if six and ip != '10.0.0.12':      # this history's clients connect over IPv6 / a UNIX socket
+            rq['peer'] = {'10.0.0.1': {'t': 'inet6', 'h': '2001:db8::1'}, '10.0.0.2': six}[ip]
+        reqs.append(rq)
     return {'k': 'sess', 'reqs': reqs}
 
 
@@ -717,6 +755,14 @@ def sess_table():
                 {'cookie': {'ref': 0}, 'ip': b[0], 'agent': b[1], 'act': act, 'uuid': u1},
                 {'cookie': {'ref': 1}, 'ip': a[0], 'agent': a[1], 'act': ['r'], 'uuid': 'c' * 8},
                 {'cookie': {'ref': 1}, 'ip': b[0], 'agent': b[1], 'act': ['r'], 'uuid': 'd' * 8}]})
+    # clients of other socket families: two IPv6 clients, IPv6 vs UNIX, IPv4 vs IPv6 (the id must not travel)
+    P6a, P6b = {'t': 'inet6', 'h': '2001:db8::1'}, {'t': 'inet6', 'h': '2001:db8::bad'}
+    PU, PU2, P4 = {'t': 'unix', 'n': ''}, {'t': 'unix', 'n': 'ab'}, {'t': 'inet', 'h': '10.0.0.1'}
+    for pa, pb in [(P6a, P6b), (P6b, P6a), (P6a, PU), (PU, P6a), (P4, P6a), (P6a, P4), (PU2, P6a), (P6a, P6a), (PU, PU2)]:
+        out.append({'k': 'sess', 'reqs': [
+            {'cookie': None, 'peer': pa, 'agent': 'UA', 'act': ['w', 5], 'uuid': u0},
+            {'cookie': {'ref': 0}, 'peer': pb, 'agent': 'UA', 'act': ['r'], 'uuid': u1},
+            {'cookie': {'ref': 0}, 'peer': pa, 'agent': 'UA', 'act': ['r'], 'uuid': 'c' * 8}]})
     # the owner's cookie in every notation
     for fmt in sorted(COOKIE_FMT):
         for ip in ('10.0.0.1', '10.0.0.2'):
@@ -739,15 +785,40 @@ def vhost_table():
     return out
 
 
+PEERS = [{'t': 'inet', 'h': '10.0.0.1'}, {'t': 'inet6', 'h': '::1'}, {'t': 'inet6', 'h': '2001:db8::2'},
+         {'t': 'unix', 'n': ''}, {'t': 'unix', 'n': 'ab'}, {'t': 'unix', 'n': '/run/gw.sock'}, {'t': 'unixb', 'n': ''},
+         {'t': 'unixb', 'n': '\x00x'}, {'t': 'unixb', 'n': 'ab'}, {'t': 'raise'}]
+GATEWAYS = [None, [], ['10.0.0.1'], ['::1'], [None], ['::1', None], ['None'], ['', 'a'], ['2001:db8::2', '10.0.0.1']]
+
+
+def vhost_peer_table():
+    """peer names of every socket family x gateway configurations (None in the list = the configuration names the
+    address-less peer itself) x Host / X-Forwarded-Host naming configured and unknown domains"""
+    out = []
+    doms = [['a.example', 'sitea'], ['b.example', 'siteb']]
+    for peer, tg in itertools.product(PEERS, GATEWAYS):
+        for host, xfh in [('a.example', 'b.example'), ('nowhere.example', 'b.example'), ('a.example', 'nowhere.example')]:
+            if peer['t'] == 'raise' and (tg or host != 'a.example'):
+                continue
+            out.append({'k': 'vhost', 'domains': doms, 'tg': tg, 'tgtype': 'list', 'peer': peer, 'host': host,
+                        'xfh': xfh, 'path': '/x'})
+    return out
+
+
 def gen_vhost_case(rng):
     hosts = ['a.example', 'b.example', 'b.example:8080', 'c.example', 'nowhere.example', 'A.example', None]
     tg = rng.choice([None, [], ['10.0.0.1'], ['10.0.0.1', '10.0.0.2'], ['10.0.0.12'], ['::1']])
     f = rng.choice(hosts[:6])
     xfh = rng.choice([None, '', f, f.upper(), ' %s ' % f, '%s, %s' % (f, rng.choice(hosts[:5])), '\t%s\u00a0,' % f,
                       ',' + f, ' , ' + f])
-    return {'k': 'vhost', 'domains': rng.sample(DOMAINS, rng.randint(1, len(DOMAINS))), 'tg': tg,
-            'tgtype': rng.choice(['list', 'tuple', 'set']), 'ip': rng.choice(IPS), 'host': rng.choice(hosts),
-            'xfh': xfh, 'path': rng.choice(['/', '/x', '/x/y/', 'x', '//x//', '/x%20y', '/x/../y', ''])}
+    c = {'k': 'vhost', 'domains': rng.sample(DOMAINS, rng.randint(1, len(DOMAINS))), 'tg': tg,
+         'tgtype': rng.choice(['list', 'tuple', 'set']), 'ip': rng.choice(IPS), 'host': rng.choice(hosts),
+         'xfh': xfh, 'path': rng.choice(['/', '/x', '/x/y/', 'x', '//x//', '/x%20y', '/x/../y', ''])}
+    if rng.random() < 0.3:       # any socket family, any gateway list
+        del c['ip']
+        c['peer'] = rng.choice(PEERS[:9])
+        c['tg'] = rng.choice(GATEWAYS)
+    return c
 
 
 # ------------------------------------------------------------------ Coq literals
@@ -804,11 +875,11 @@ class C20(Prop):
 
     def __init__(self):
         self._cache = {}
-        self.stats = {'auth_tags': {}, 'auth_outcomes': {}, 'kinds': {}, 'cookies': {}, 'authenticated_by_variant': {}}
+        self.stats = {'auth_tags': {}, 'auth_outcomes': {}, 'kinds': {}, 'cookies': {}, 'authenticated_by_variant': {}, 'peers': {}}
 
     # ---- cases
     def generate(self, rng, n, tier):
-        cases = auth_table() + authseq_table() + e2e_table() + sess_table() + vhost_table()
+        cases = auth_table() + authseq_table() + e2e_table() + sess_table() + vhost_table() + vhost_peer_table()
         if tier == 'thorough':
             cases += auth_table_big() + sess_table_big()
         for i in range(n):
@@ -918,7 +989,7 @@ class C20(Prop):
                 return cur['uuid']
         old = sessions_mod.uuid
         sessions_mod.uuid = lambda: U()
-        out, sent, seen_l, served = [], [], [], []
+        out, sent, seen_l, served, remotes = [], [], [], [], []
         try:
             for r in c['reqs']:
                 cur['uuid'] = r['uuid']
@@ -926,11 +997,12 @@ class C20(Prop):
                 raw = cookie_header(r['cookie'], served)
                 if raw is not None:
                     hs.append(('Cookie', raw))
-                req, res = mkreq(ip=r['ip'], headers=hs)
+                req, res = mkreq(ip=r.get('peer') or r['ip'], headers=hs)
                 # what http.cookies.SimpleCookie made of the header: the id this request presents
                 seen = req.cookie['circuits'].value if 'circuits' in req.cookie else None
                 sent.append(raw)
                 seen_l.append(seen)
+                remotes.append(rec_ip(req.remote.ip))
                 S.request(req, res)
                 sid = res.cookie['circuits'].value
                 served.append(sid)
@@ -949,10 +1021,13 @@ class C20(Prop):
         for x in seen_l:
             t = 'absent' if x is None else 'value'
             self.stats['cookies'][t] = self.stats['cookies'].get(t, 0) + 1
-        return {'steps': out, 'sent': sent, 'seen': seen_l}
+        return {'steps': out, 'sent': sent, 'seen': seen_l, 'remote': remotes}
 
-    def _vrun(self, vh, c, host, xfh, ip=None):
-        req, res = mkreq(ip=ip or c['ip'], path=c['path'], headers=[('Host', host), ('X-Forwarded-Host', xfh)])
+    def _vrun(self, vh, c, host, xfh, ip=None, rec=None):
+        req, res = mkreq(ip=ip or c.get('peer') or c['ip'], path=c['path'],
+                         headers=[('Host', host), ('X-Forwarded-Host', xfh)])
+        if rec is not None:
+            rec['remote'] = rec_ip(req.remote.ip)       # what the real Request made of the peer name
         vh._on_request(None, req, res)
         return req.path
 
@@ -960,15 +1035,28 @@ class C20(Prop):
         tg = c['tg']
         if tg is not None:
             tg = {'list': list, 'tuple': tuple, 'set': set}[c['tgtype']](tg)
+        spec = peer_spec(c.get('peer') or c['ip'])
+        t = spec['t']
+        self.stats['peers'][t] = self.stats['peers'].get(t, 0) + 1
         # ONE component instance for all requests of the case: a decision must not leak from an earlier request
         vh = VirtualHosts(dict((d, p) for d, p in c['domains']), tg)
-        if c['tg']:
-            self._vrun(vh, c, c['host'], c['domains'][-1][0] or 'a.example', ip=c['tg'][0])   # a trusted request first
+        named = [g for g in (c['tg'] or []) if g]
+        if named:                # a request from a configured gateway first
+            self._vrun(vh, c, c['host'], c['domains'][-1][0] or 'a.example',
+                       ip={'t': 'inet6' if ':' in named[0] else 'inet', 'h': named[0]})
+        if t == 'raise':         # no Request object comes into being: nothing is routed
+            try:
+                self._vrun(vh, c, c['host'], c['xfh'])
+            except OSError as e:
+                return {'rejected': type(e).__name__}
+            return {'rejected': None}
         xfh = c['xfh']
         f = None
         if xfh is not None:
             f = xfh.split(',')[0].strip().lower()
-        obs = {'path': self._vrun(vh, c, c['host'], xfh), 'path_no_xfh': self._vrun(vh, c, c['host'], None)}
+        obs = {}
+        obs['path'] = self._vrun(vh, c, c['host'], xfh, rec=obs)
+        obs['path_no_xfh'] = self._vrun(vh, c, c['host'], None)
         obs['path_host_f'] = self._vrun(vh, c, f, None) if f and re.fullmatch(r'[a-z.]+(:\d+)?', f) else None
         return obs
 
@@ -1010,8 +1098,10 @@ class C20(Prop):
                         cstr(c['method']), checks))
         if k == 'sess':
             shat = {}
-            for r in c['reqs']:
-                t = '%s|%s' % (r['ip'], r['agent'] or '')
+            rem = obs['remote'] if isinstance(obs, dict) and 'remote' in obs else [
+                peer_addr(peer_spec(r.get('peer') or r['ip'])) for r in c['reqs']]
+            for r, ip_ in zip(c['reqs'], rem):
+                t = '%s|%s' % (ip_, r['agent'] or '')   # f'{None}' = 'None'
                 shat[t] = hashlib.sha1(t.encode('utf-8')).hexdigest()
             sent = obs['sent'] if isinstance(obs, dict) and 'sent' in obs else [None] * len(c['reqs'])
             seen = obs['seen'] if isinstance(obs, dict) and 'seen' in obs else [None] * len(c['reqs'])
@@ -1020,20 +1110,24 @@ class C20(Prop):
                 if h_ is not None:
                     ct[h_] = v_
             h = []
-            for r, raw in zip(c['reqs'], sent):
+            for r, raw, ip_ in zip(c['reqs'], sent, rem):
                 a = r['act']
                 act = 'Read' if a[0] == 'r' else 'Expire' if a[0] == 'x' else '(Write %d)' % a[1]
                 ck = 'None' if raw is None else '(cookie_tbl ct %s)' % cstr(raw)
-                h.append('(mkreq %s %s %s, %s, %s)' % (ck, cstr(r['ip']), cstr(r['agent'] or ''), act, cstr(r['uuid'])))
+                h.append('(mkreq_remote %s %s %s, %s, %s)' % (ck, copt(ip_, cstr), cstr(r['agent'] or ''), act, cstr(r['uuid'])))
             ctl = '[%s]' % '; '.join('(%s, %s)' % (cstr(k_), copt(v_, cstr)) for k_, v_ in sorted(ct.items()))
             return '(let ct : list (str * option str) := %s in obs_session %s [%s])' % (ctl, cpairs(sorted(shat.items())), '; '.join(h))
         if k == 'vhost':
+            spec = peer_spec(c.get('peer') or c['ip'])
+            if spec['t'] == 'raise':
+                return None
             jt = []
             for d, p in c['domains']:
                 a, b = '/%s/' % p, c['path'].strip('/')
                 jt.append('(%s, %s, %s)' % (cstr(a), cstr(b), cstr(urllib.parse.urljoin(a, b))))
-            tg = copt(c['tg'], lambda l: '[%s]' % '; '.join(cstr(x) for x in l))
-            return 'obs_vhost [%s] %s %s %s %s %s %s' % ('; '.join(jt), cpairs(c['domains']), tg, cstr(c['ip']),
+            tg = copt(c['tg'], lambda l: '[%s]' % '; '.join(copt(x, cstr) for x in l))
+            remote = obs['remote'] if isinstance(obs, dict) and 'remote' in obs else peer_addr(spec)
+            return 'obs_vhost [%s] %s %s %s %s %s %s' % ('; '.join(jt), cpairs(c['domains']), tg, copt(remote, cstr),
                                                         cstr(c['host'] or ''), cstr(c['xfh'] or ''), cstr(c['path']))
 
     def _header_tables(self, hdr):
@@ -1088,7 +1182,7 @@ class C20(Prop):
             return bool(obs['secret'])
         if k == 'sess':
             return obs['steps']
-        return obs['path']
+        return obs.get('path')
 
     # ---- oracle: the property's predicate on the real code's behaviour
     def oracle(self, c, obs):
@@ -1121,7 +1215,7 @@ class C20(Prop):
         if k == 'sess':
             served = {}      # sid -> the client (address, user agent) it was served to
             for r, (sid, data), presented in zip(c['reqs'], obs['steps'], obs['seen']):
-                me = (r['ip'], r['agent'] or '')
+                me = (peer_addr(peer_spec(r.get('peer') or r['ip'])), r['agent'] or '')   # address None: UNIX-socket peer
                 if sid in served:
                     if presented != sid:
                         return 'a request presenting %r was given the existing session id %r' % (presented, sid)
@@ -1136,20 +1230,61 @@ class C20(Prop):
                 served.setdefault(sid, me)
             return None
         if k == 'vhost':
+            if 'rejected' in obs:
+                return None if obs['rejected'] else 'a request whose peer name cannot be read was routed'
             tg = c['tg']
-            is_trusted = tg is None or c['ip'] in tg
+            spec = peer_spec(c.get('peer') or c['ip'])
+            addr = peer_addr(spec)            # None: the peer has no address (UNIX socket)
+            # "from the configured trusted gateways": no list configured, or the list names this peer's address
+            # (None in the list = the configuration explicitly names the address-less peer)
+            is_trusted = tg is None or addr in tg
+            who_ = '%s peer %r' % (spec['t'], addr if addr is not None else spec.get('n'))
             if not is_trusted:
                 if obs['path'] != obs['path_no_xfh']:
                     return ('X-Forwarded-Host %r from untrusted %s (trusted: %r) changed routing: %r instead of %r'
-                            % (c['xfh'], c['ip'], tg, obs['path'], obs['path_no_xfh']))
+                            % (c['xfh'], who_, tg, obs['path'], obs['path_no_xfh']))
             elif obs['path_host_f'] is not None:
                 if obs['path'] != obs['path_host_f']:
                     return ('X-Forwarded-Host %r from trusted gateway %s not honoured: %r instead of %r'
-                            % (c['xfh'], c['ip'], obs['path'], obs['path_host_f']))
+                            % (c['xfh'], who_, obs['path'], obs['path_host_f']))
             elif not (c['xfh'] or '').split(',')[0].strip():
                 if obs['path'] != obs['path_no_xfh']:
                     return 'empty X-Forwarded-Host changed routing'
             return None
+
+    def finding_class(self, c, obs, what):
+        """C20-peer-address-misread: wrappers.Request takes the address of the peer from `ip, port = getpeername()`,
+        so an IPv6 peer (4-tuple) gets remote.ip None and a 2-character UNIX-socket name gets its first character.
+        Covered: only consequences of the REAL code seeing two clients as one / a gateway as a stranger because of
+        that misreading.  An address-less or misread peer whose X-Forwarded-Host is honoured although the value the
+        code saw is NOT in the configured list is outside the class."""
+        fid = 'C20-peer-address-misread'
+        if not isinstance(obs, dict) or 'remote' not in obs or not what:
+            return None
+        if c['k'] == 'vhost':
+            spec = peer_spec(c.get('peer') or c['ip'])
+            rec, addr, tg = obs['remote'], peer_addr(spec), c['tg']
+            if rec == addr or tg is None:
+                return None
+            if 'not honoured' in what and rec not in tg:          # the configured gateway is not recognised
+                return fid
+            if 'changed routing' in what and rec in tg:           # the misread value happens to be listed
+                return fid
+            return None
+        if c['k'] == 'sess' and 'returned to a request from client' in what:
+            served = {}
+            for i, (r, (sid, data)) in enumerate(zip(c['reqs'], obs['steps'])):
+                addr = peer_addr(peer_spec(r.get('peer') or r['ip']))
+                me = (addr, r['agent'] or '')
+                if sid in served and served[sid][0] != me:
+                    j = served[sid][1]
+                    addr_j = peer_addr(peer_spec(c['reqs'][j].get('peer') or c['reqs'][j]['ip']))
+                    same_for_code = (obs['remote'][i] == obs['remote'][j]
+                                     and (r['agent'] or '') == (c['reqs'][j]['agent'] or ''))
+                    misread = obs['remote'][i] != addr or obs['remote'][j] != addr_j
+                    return fid if same_for_code and misread else None
+                served.setdefault(sid, (me, i))
+        return None
 
     def _judge_check(self, c, ch, tag, login, status, challenge):
         """the property's predicate for ONE check with configuration c (hdr, method, realm, users, fn, enc);
